@@ -51,6 +51,14 @@ CHECKS.update({
         technique="Lean 4 proof (structural induction on storylines) + exhaustive small-shape and random differential correspondence + denotation oracle"),
 })
 
+CHECKS.update({
+    "C17": dict(
+        category="proof",
+        text="Lean 4 model of the retry state machine (Next, NextCh, Reset, closer/context) with retryIn over exact rationals and the jitter as a parameter; theorems first_immediate, attempts_le, backoff_band / lower_edge for every option set and every u in [0,1), next_schedule / nextCh_schedule, reset_restores, closed_stops (partial: one known finding), withMaxAttempts_spec for every n >= 1; a property monitor evaluated on event traces of the real loop (lower bounds on measured gaps only) and WithMaxAttempts compared with the model.",
+        note="Trusted: Lean kernel; float64 idealised as exact rationals; `select` prefers an already-fired stop over a timer that is not yet due, time.After is never early (a select race under load is re-run before it is judged); upper edges of the band are tied to the code only through the model.",
+        technique="Lean 4 proof (arithmetic over Rat, invariant + simulation) + trace monitor on the real loop"),
+})
+
 NOT_APPLICABLE = [
     {"property_id": "C14", "reason": "data-race freedom is a property of memory accesses under the Go memory model; no executable Lean model compared on values can exhibit an unsynchronised access (DESIGN.md 5/C14)"},
 ]
